@@ -96,6 +96,8 @@ fn check_wellformed(terms: &[&Term], fam: &str, ctx: &mut Ctx) {
 
 // ---------------------------------------------------------------- (c) date-time strings
 const DT_ALPHA: [char; 12] = ['2', '0', '1', '9', '-', '/', ':', ' ', '.', 'T', 'a', 'é'];
+/// the edits also insert characters of three and four bytes
+const DT_EDIT_ALPHA: [char; 14] = ['2', '0', '1', '9', '-', '/', ':', ' ', '.', 'T', 'a', 'é', '€', '😀'];
 
 macro_rules! by_unit {
     ($u:expr, $U:ident => $body:expr) => {
@@ -282,7 +284,7 @@ fn check_datetime_roundtrip(c: &NaiveDateTime, edits: bool, ctx: &mut Ctx) {
                 // every single-character edit of the text: totality
                 let chars: Vec<char> = text.chars().collect();
                 for pos in 0..=chars.len() {
-                    for e in 0..(1 + 2 * DT_ALPHA.len()) {
+                    for e in 0..(1 + 2 * DT_EDIT_ALPHA.len()) {
                         let mut x = chars.clone();
                         if e == 0 {
                             if pos < x.len() {
@@ -290,10 +292,10 @@ fn check_datetime_roundtrip(c: &NaiveDateTime, edits: bool, ctx: &mut Ctx) {
                             } else {
                                 continue;
                             }
-                        } else if e <= DT_ALPHA.len() {
-                            x.insert(pos, DT_ALPHA[e - 1]);
+                        } else if e <= DT_EDIT_ALPHA.len() {
+                            x.insert(pos, DT_EDIT_ALPHA[e - 1]);
                         } else if pos < x.len() {
-                            x[pos] = DT_ALPHA[e - 1 - DT_ALPHA.len()];
+                            x[pos] = DT_EDIT_ALPHA[e - 1 - DT_EDIT_ALPHA.len()];
                         } else {
                             continue;
                         }
@@ -304,6 +306,42 @@ fn check_datetime_roundtrip(c: &NaiveDateTime, edits: bool, ctx: &mut Ctx) {
                 }
             }
         }
+    }
+}
+
+/// characters of one to four bytes for the edit families
+const EDIT_ALPHA: [char; 12] = ['0', '9', ':', '.', ' ', '-', 'a', 'd', 'é', '€', '😀', '\u{0}'];
+fn for_single_edits(text: &str, alpha: &[char], f: &mut dyn FnMut(&str)) {
+    let chars: Vec<char> = text.chars().collect();
+    for pos in 0..=chars.len() {
+        if pos < chars.len() {
+            let mut x = chars.clone();
+            x.remove(pos);
+            f(&x.into_iter().collect::<String>());
+        }
+        for a in alpha {
+            let mut x = chars.clone();
+            x.insert(pos, *a);
+            f(&x.into_iter().collect::<String>());
+            if pos < chars.len() {
+                let mut x = chars.clone();
+                x[pos] = *a;
+                f(&x.into_iter().collect::<String>());
+            }
+        }
+    }
+}
+fn time_total(s: &str, fmt: Option<&str>, fam: &str, ctx: &mut Ctx) {
+    let r = catch(|| Time::parse(s, fmt).map(|t| t.0).map_err(|_| ()));
+    if fmt.is_none() {
+        let via_fromstr = catch(|| s.parse::<Time>().map(|t| t.0).map_err(|_| ()));
+        if !(matches!((&r, &via_fromstr), (Outcome::Ok(a), Outcome::Ok(b)) if a == b) || (r.is_panic() && via_fromstr.is_panic())) {
+            viol(ctx, "Time: FromStr agrees with parse", None, json!({"family": fam, "input": s}), format!("{r:?}"), format!("{via_fromstr:?}"));
+        }
+    }
+    ctx.eval(fam, match &r { Outcome::Ok(Ok(v)) => *v as u64, Outcome::Ok(Err(())) => 1, _ => 2 });
+    if r.is_panic() {
+        viol(ctx, "Time::parse (totality)", None, json!({"family": fam, "input": s, "format": fmt}), "a value or an error".into(), format!("{r:?}"));
     }
 }
 
@@ -329,6 +367,26 @@ fn check_time_parse(ctx: &mut Ctx, max_len: usize) {
                 }
             }
         }
+    }
+    // every single-character edit (delete / insert / substitute, characters of 1, 2, 3 and 4 bytes) of
+    // well-formed time texts with fractions of 0 .. 12 digits: totality, FromStr agrees (seed round 9)
+    let mut texts: Vec<String> = vec![];
+    for (h, m, sec) in [(0u32, 0u32, 0u32), (12, 34, 56), (23, 59, 59), (7, 5, 9)] {
+        for frac in ["", ".5", ".123", ".123456", ".12345678", ".123456789", ".1234567891", ".123456789012"] {
+            texts.push(format!("{h:02}:{m:02}:{sec:02}{frac}"));
+        }
+        texts.push(format!("{h:02}:{m:02}"));
+        texts.push(format!("{h}:{m}:{sec}"));
+    }
+    for text in &texts {
+        ctx.fam("time-edits").states += 1;
+        for_single_edits(text, &EDIT_ALPHA, &mut |s| {
+            ctx.states += 1;
+            ctx.transitions += 1;
+            ctx.nontrivial("time-edits", hash_bytes(s.as_bytes()));
+            time_total(s, None, "time-edits", ctx);
+            time_total(s, Some("%H:%M:%S%.f"), "time-edits", ctx);
+        });
     }
     let alpha = ['1', '2', '0', '9', ':', '.', ' ', 'a', 'é', '-'];
     for w in strings_upto(&alpha, max_len) {
@@ -415,6 +473,17 @@ fn main() {
     for s in ["9223372036854775807d", "99999999999999999999d", "9223372036854775807ns", "-9223372036854775808ns", "4294967297mo", "2147483648mo", "200000000y", "9223372036854775807s", "1h 30m", "--3d", "abc", "é1d", "1d\u{0}", "１d"] {
         c.states += 1;
         td_total(s, "timedelta-probes", &mut c);
+    }
+    // every single-character edit of well-formed duration texts (characters of 1 .. 4 bytes): totality, the
+    // wrapper routes agree (seed round 9)
+    for text in ["1d", "-12mo3h", "+7w-1000ns", "1y2mo3w4d5h6m", "10us20ms30s", "0d"] {
+        c.fam("timedelta-edits").states += 1;
+        for_single_edits(text, &EDIT_ALPHA, &mut |s| {
+            c.states += 1;
+            c.transitions += 1;
+            c.nontrivial("timedelta-edits", hash_bytes(s.as_bytes()));
+            td_total(s, "timedelta-edits", &mut c);
+        });
     }
     // (b) well-formed words
     wellformed_all(&run, &mut c, None);
